@@ -332,6 +332,7 @@ def _rest_after_r2(ctx, core, cg, G_holder=None):
     # ... and a name the function's writer could see is never taken from the caller instead: every free name of the body is captured
     # at definition, and every parameter is bound on every call (an unbound one would let an outer name of that spelling show through)
     c04_.capture_at_creation(ctx, "C03.R6", core)
+    c04_.call_site_independent(ctx, "C03.R6", core)
     c04_.positional_binding(ctx, "C03.R6", core)
     scope_chain_rule(ctx, "C03.R7", core)
     # parameters shadow outer names in the source text emitted for a function, too (do-block locals in emitted source: C05.R8, a listed finding there)
